@@ -51,7 +51,18 @@ class SymEnv:
     def unit(self, name):
         c, s = self.real(name + "_c"), self.real(name + "_s")
         self.assume(c * c + s * s == 1)
+        core.CTX.hints.setdefault("unit", []).append((name + "_c", name + "_s"))
         return c, s
+
+    def hint_unit(self, xname, yname):
+        core.CTX.hints.setdefault("unit", []).append((xname, yname))
+
+    def hint_positive(self, name):
+        core.CTX.hints.setdefault("positive", []).append(name)
+
+    def hint_value(self, name, value):
+        """a plausible concrete value for an input: only guides the sat-side sampler, never constrains anything."""
+        core.CTX.hints.setdefault("values", {})[name] = float(value)
 
     # conditions
     def eq(self, a, b, tol=None, abs_tol=None):
@@ -130,6 +141,15 @@ class ConcEnv:
         if n == 0:
             raise PreconditionFailed("zero unit vector")
         return c / n, s / n
+
+    def hint_unit(self, xname, yname):
+        pass
+
+    def hint_positive(self, name):
+        pass
+
+    def hint_value(self, name, value):
+        pass
 
     def eq(self, a, b, tol=None, abs_tol=None):
         a, b = float(a), float(b)
